@@ -68,9 +68,29 @@ static bool any_fault_fired(int idx) {
   return false;
 }
 
+// multi-thread plans: life-cycle ops (new/start/destroy) issued earlier in the plan by another thread on the
+// same handle must have completed before this op may touch the handle
+static bool lifecycle_ready(Thread *t) {
+  Runner *r = G;
+  size_t me = r->tpos[(size_t) t->tid];
+  int h = r->plan.ops[me].h;
+  for (size_t j = 0; j < me; j++) {
+    const Op &o = r->plan.ops[j];
+    if (o.h != h || o.thread == t->tid) continue;
+    if ((o.kind == OP_NEW || o.kind == OP_START || o.kind == OP_DESTROY) && !r->out.res[j].ran && !r->skipped[j]) return false;
+  }
+  return true;
+}
+
 void Runner::exec_op(Thread *t, int idx) {
   const Op &op = plan.ops[(size_t) idx];
   OpRes &res = out.res[(size_t) idx];
+  if (tpos.size() > 1 && op.h >= 0 && !lifecycle_ready(t)) {
+    t->op = idx;
+    K->park(t, lifecycle_ready, -1, K_sleep);
+    t->op = -1;
+  }
+  struct Skip { Runner *r; int i; OpRes &res; ~Skip() { if (!res.ran) r->skipped[(size_t) i] = true; } } skip_guard{ this, idx, res };
   HState *h = op.h >= 0 && (size_t) op.h < hs.size() ? &hs[(size_t) op.h] : nullptr;
   void *hp = h ? h->p : nullptr;
   OpCtx &cx = octx[(size_t) t->tid];
